@@ -477,3 +477,55 @@ def check_remove_ancilla(case):
         if sol != before:
             return Fail("remove_ancilla_from_solution modified its argument", key="remove-ancilla-mutates")
     return None
+
+
+# ---------------------------------------------------------------------------------------------
+# constraints over variables that end up in no term of the model
+# ---------------------------------------------------------------------------------------------
+def _gen_free_constraint_vars(ctx):
+    a, b, c, d = 'a', 0, ('t', 1), 'd'
+    sat = [("le", {(c,): 1, (d,): 1, (): -2}), ("le", {(c,): 1, (): -1}), ("lt", {(c,): 1, (d,): 1, (): -3}),
+           ("ge", {(c,): 1, (d,): 1}), ("gt", {(c,): 1, (): 1}), ("ne", {(c,): 1, (d,): 1, (): 1})]
+    ssat = [("le", {(c,): 1, (d,): 1, (): -2}), ("lt", {(c,): 1, (): -2}), ("ge", {(c,): 1, (d,): 1, (): 2}),
+            ("gt", {(c, d): 1, (): 2}), ("ne", {(c,): 1, (d,): 1, (): 1})]
+    for tname, fs, cons in (("PCBO", [{(a,): 1}, {(a,): -2, (b,): 1, (a, b): 2}, {}], sat),
+                            ("PCSO", [{(a,): 1}, {(a, b): 1, (b,): -1}], ssat)):
+        for f in fs:
+            for con in cons:
+                for lt in (True, False):
+                    # (i) a constraint that every assignment satisfies, over variables the objective does not use
+                    yield {"type": tname, "f": f, "cons": [("rel",) + con], "extras": [0], "log_trick": lt, "lam0": False}
+            # (ii) a constraint that is only recorded (lam=0 is the documented way to do that), together with one
+            #      that is enforced
+            enforced = ("rel", "le", {(a,): 1, (): (-1 if tname == "PCSO" else 0)})
+            yield {"type": tname, "f": f, "cons": [("rel", "le", {(c,): 1, (d,): 1, (): -2}), enforced], "extras": [0, 0],
+                   "log_trick": True, "lam0": True}
+
+
+@clause("C08.constraint_variables_without_terms", "C08", gen=_gen_free_constraint_vars)
+def check_constraint_variables_without_terms(case):
+    """A feasible constraint may involve variables the objective does not use; when the constraint adds no term to
+    the model (every assignment satisfies it, or it is recorded with lam=0), solve_bruteforce() must still return a
+    feasible assignment minimising f over the feasible set - in particular one that assigns the constraint's
+    variables, since feasibility cannot be read off without them."""
+    vs, fmin, fmax, opt, feas = _analyse(case)
+    if opt is None:
+        return Skip("infeasible")
+    H = cls_of(case["type"])(case["f"])
+    for i, con in enumerate(case["cons"]):
+        lam = 0 if (case["lam0"] and i == 0) else (fmax - fmin) + 1
+        kw = {"lam": lam, "suppress_warnings": True}
+        if con[1] not in ("eq", "ne"):
+            kw["log_trick"] = case["log_trick"]
+        getattr(H, "add_constraint_%s_zero" % con[1])(dict(con[2]), **kw)
+    if set(vs) <= _labels_of(dict(H)):
+        return Skip("every variable occurs in a term")
+    try:
+        sol = H.solve_bruteforce()
+    except KeyError as ex:
+        return Fail("solve_bruteforce() raised KeyError(%s): the recorded constraint mentions a variable that is not "
+                    "a variable of the model" % (ex,), key="constraint-variable-not-in-model")
+    if isinstance(sol, dict) and not set(vs) <= set(sol):
+        return Fail("solve_bruteforce() returned %r, which does not assign the constraint's variables %r"
+                    % (sol, [v for v in vs if v not in sol]), key="constraint-variable-not-in-model")
+    return _judge(case, sol, vs, opt, "solve_bruteforce()")
